@@ -99,13 +99,13 @@ Fixpoint fmap_add (m : fmap) (k : Z) (vs : list bytes) : fmap :=
 (* Reader::read_field: the values one tag/value pair contributes to its field *)
 Definition field_values (fw got : wire) (v : wval) : option (list bytes) :=
   if wire_eqb got fw then Some [raw_of_wval v]
-  else match v with
-       | VLen payload =>
+  else match got, v with
+       | WLen, VLen payload =>
            match unpack fw payload with
            | Some vs => Some (map raw_of_wval vs)
            | None => None
            end
-       | _ => None          (* "unexpected wire type" *)
+       | _, _ => None          (* "unexpected wire type" *)
        end.
 
 Fixpoint group_tlvs (fs : list field) (tl : list tlv) (acc : fmap) : option fmap :=
@@ -267,8 +267,8 @@ Section Denote.
       | _, v => Some [(fnum fd, dval_of_wval v)]
       end
     else
-      match tval t with
-      | VLen p =>
+      match twire t, tval t with
+      | WLen, VLen p =>
           (* packed chunk: repeated scalar fields only, at least one element *)
           if is_list fd then
             match unpack fw p with
@@ -276,7 +276,7 @@ Section Denote.
             | _ => None
             end
           else None
-      | _ => None
+      | _, _ => None
       end.
 
   Fixpoint denote_tlvs (fs : list field) (tl : list tlv) : option dmsg :=
@@ -295,11 +295,14 @@ Section Denote.
     end.
 End Denote.
 
-(* a singular field occurs at most once *)
-Definition count_num (n : Z) (d : dmsg) : nat :=
-  length (filter (fun e : Z * dval => fst e =? n) d).
+(* a singular field occurs at most once: checked on the entries grouped by field number *)
+Definition shape (d : dmsg) : fmap := group_raw (map (fun e : Z * dval => (fst e, @nil Z)) d).
 Definition singular_ok (fs : list field) (d : dmsg) : bool :=
-  forallb (fun fd => is_list fd || (count_num (fnum fd) d <=? 1)%nat) fs.
+  forallb (fun kv : Z * list bytes =>
+             match find_field fs (fst kv) with
+             | Some fd => is_list fd || (length (snd kv) <=? 1)%nat
+             | None => false
+             end) (shape d).
 
 Fixpoint denote_fuel (fuel : nat) (Sc : schema) (mi : nat) (buf : bytes) : option dmsg :=
   match fuel with
@@ -330,6 +333,8 @@ Definition obs_cres (r : cres) : obsv :=
   | Err _ => OL [OZ 1]
   | Panic p => OL [OZ 2; OZ (panic_code p)]
   end.
+
+Definition obs_hex (s : string) : obsv := ozs (unhex s).
 
 (* input: message index, bytes *)
 Definition run_canonical_raw (Sc : schema) (c : nat * bytes) : obsv :=
